@@ -133,3 +133,99 @@ class NumpyProducer(ProducerContract):
 
 
 register(NumpyProducer, 'conversion_utils.py::numpy_producer', ['C01', 'C20', 'C19'], ALL3, modes=('file',))
+
+
+# ---------------------------------------------------------------------------------------------
+# SEG-Y route: io_thread_func fills one plane set (data + edge replication + header capture)
+
+from . import models_ext as MX      # noqa: E402
+from pyvc.values import SRange      # noqa: E402
+from pyvc.models import SymSeq      # noqa: E402
+
+
+def window_geometry(c, prog, nI_src, nX_src):
+    """Geometry3d window [il0, il0+nIw) x [xl0, xl0+nXw) inside the source grid (ordinals)"""
+    il0 = c.sym_int('wil0', lo=0, name='window.first_inline_ordinal'); xl0 = c.sym_int('wxl0', lo=0, name='window.first_crossline_ordinal')
+    nIw = c.sym_int('nIw', lo=1, name='window.n_ilines'); nXw = c.sym_int('nXw', lo=1, name='window.n_xlines')
+    c.assume(le(add(il0, nIw), nI_src), le(add(xl0, nXw), nX_src))
+    geom = SObj(prog.klass('Geometry3d'), dict(ilines=SRange(il0, add(il0, nIw), 1), xlines=SRange(xl0, add(xl0, nXw), 1)))
+    return geom, (il0, xl0, nIw, nXw)
+
+
+def _hdr_witness(idx, env):
+    # the k-th header of the plane lands at row*nXw + k
+    row = add(mul(env['plane_set_id'], env['blockshape'][0]), env['i'])
+    return sub(idx[0], mul(row, ops_binop('-', env['geom'].fields['xlines'].stop, env['geom'].fields['xlines'].start)))
+
+
+class IoThreadFunc(ProducerContract):
+    """buffer[i,x,z] = source sample of window inline min(ps*b0+i, nIw-1), crossline min(x, nXw-1), sample min(z, nZ-1);
+    header array f: entry row*nXw + x = header value f of source trace (il0+row)*nX_src + xl0 + x, for the real rows read"""
+    modular_use = True
+    exact_result = False
+    b0 = 4
+    minimal = False
+    loops = {('conversion_utils.py::io_thread_func', 2 if False else 999): None}
+    FIELDS = (189, 73)
+
+    def inputs(self, c):
+        prog = c.ex.prog
+        b0 = self.b0
+        nI = c.sym_int('nI', lo=2, name='source.n_ilines'); nX = c.sym_int('nX', lo=2, name='source.n_xlines'); nZ = c.sym_int('nZ', lo=2, name='n_samples')
+        seg = MX.mk_segy(c, nI, nX, nZ)
+        geom, (il0, xl0, nIw, nXw) = window_geometry(c, prog, nI, nX)
+        b1 = c.sym_int('b1', lo=4, name='blockshape[1]'); b2 = c.sym_int('b2', lo=4, name='blockshape[2]')
+        P1 = c.sym_int('P1', name='padded_xl'); P2 = c.sym_int('P2', name='padded_z')
+        c.assume(ge(P1, nXw), ge(P2, nZ))
+        ps = c.sym_int('ps', lo=0, name='plane_set_id')
+        ptr = c.sym_int('ptr', lo=1, hi=b0, name='planes_to_read')
+        c.assume(eq(ptr, Min(b0, sub(nIw, mul(b0, ps)))))
+        buf = SArray((b0, P1, P2), lambda idx: STok(z3.Const('F32_ZERO', F32)), 'float32')
+        hd = {}
+        for f in self.FIELDS:
+            g = z3.Function(f'old_hdr{f}', z3.IntSort(), z3.IntSort())
+            hd[f] = SArray((mul(nIw, nXw),), (lambda gg: (lambda idx: mk_int(gg(zint(idx[0])))))(g), 'int32')
+        reader = None
+        if self.minimal:
+            reader = SObj(prog.klass('MinimalInlineReader'), dict(segyfile=seg, n_il=nI, n_xl=nX, n_samp=nZ))
+            c.assume(eq(il0, 0), eq(xl0, 0), eq(nIw, nI), eq(nXw, nX))
+        return dict(blockshape=(b0, b1, b2), store_headers=True, headers_dict=hd, geom=geom, plane_set_id=ps, planes_to_read=ptr,
+                    seismic_buffer=buf, seismicfile=seg, minimal_il_reader=reader, trace_length=nZ,
+                    _w=(il0, xl0, nIw, nXw), _src=(nI, nX, nZ), _P=(P1, P2), _old={f: hd[f].fn for f in self.FIELDS})
+
+    def pre(self, c, a):
+        return []
+
+    def post(self, c, a, result):
+        il0, xl0, nIw, nXw = a['_w']
+        nI, nX, nZ = a['_src']
+        P1, P2 = a['_P']
+        b0 = self.b0
+        ps = a['plane_set_id']
+        buf = a['seismic_buffer']
+        e = O.skolem_index(c, (b0, P1, P2), base='be')
+        row = Min(add(mul(b0, ps), e[0]), sub(nIw, 1))
+        want = MX.src(add(il0, row), add(xl0, Min(e[1], sub(nXw, 1))), Min(e[2], sub(nZ, 1)))
+        c.ensure(buf.fn(e) == want, 'buffer_is_the_edge_replicated_window')
+        # header capture: row by row of the plane set (i is a concrete position in the set), any crossline x of the window
+        x = c.sym_int('hx', lo=0, name='header_crossline_in_window')
+        c.assume(lt(x, nXw))
+        ptr = a['planes_to_read']
+        for f in self.FIELDS:
+            arr = a['headers_dict'][f]
+            for i in range(b0):
+                r = add(mul(b0, ps), i)
+                got = arr.fn((add(mul(r, nXw), x),))
+                srct = add(mul(add(il0, r), nX), add(xl0, x))
+                c.ensure(Implies(lt(i, ptr), eq(got, MX.hsrc(srct, f))), f'header{f}.row{i}.entry_is_the_source_header_of_that_trace')
+            j = c.sym_int(f'hj{f}', lo=0, name='header_array_index')
+            c.assume(lt(j, mul(nIw, nXw)), Or(lt(j, mul(mul(b0, ps), nXw)), ge(j, mul(add(mul(b0, ps), ptr), nXw))))
+            c.ensure(eq(arr.fn((j,)), a['_old'][f]((j,))), f'header{f}.entries_of_other_rows_untouched')
+
+
+IO_KEY = 'conversion_utils.py::io_thread_func'
+for _b0 in (4, 8):
+    for _min in (False,):
+        _cls = type(f'IoThreadFunc_b{_b0}', (IoThreadFunc,), dict(b0=_b0, minimal=_min, variant=f'b0={_b0}'))
+        _cls.loops = {(IO_KEY, _b0 * 0 + k): L.IndependentWrites(witness=_hdr_witness) for k in range(1, 40)}
+        fuc(IO_KEY, props=['C01', 'C04', 'C11'])(_cls)
